@@ -141,6 +141,15 @@ impl FileFormatter {
         paths
             .into_par_iter()
             .map_init(Vec::<u8>::new, |input_buf, file_path| {
+                #[cfg(pasfmt_verif)]
+                if std::env::var_os("PASFMT_VERIF_SCHED").is_some() {
+                    eprintln!(
+                        "VERIF-SCHED thread={:?} stale_buf_len={} path={:?}",
+                        rayon::current_thread_index(),
+                        input_buf.len(),
+                        file_path.as_ref().ok()
+                    );
+                }
                 input_buf.clear();
 
                 let file_path = file_path?;
